@@ -821,6 +821,11 @@ impl FileData {
                 format!("Failed to read file modification time `{}`", path.display())
             })?;
 
+        #[cfg(wild_verif)]
+        if let Some(name) = path.file_name().and_then(|n| n.to_str()) {
+            crate::verif::point(&format!("opened={name}"))?;
+        }
+
         Ok((
             FileData {
                 bytes: FileBytes::read(&mut file, path, prepopulate_maps)?,
